@@ -122,6 +122,7 @@ def gen_cases(seed, tier):
     for s in docgen.exhaustive(docgen.SYM_COMMASEP, 3 if quick else 4):
         cases.append(PC.mk_case('commasep', s, False, 'commasep'))
     cases += PC.twin_cases(rnd, 250 if quick else 4000)
+    cases += PC.deep_cases(False)
     for c in cases:
         s = c['desc']['s']
         c['nt'] = c['desc']['origin'] == 'fault' or (sum(1 for ch in s if ch in '\\{$[%') >= 1 and len(s) >= 3)
@@ -151,6 +152,8 @@ def oracle(c):
     r = PC.real_parse(d)
     if r[0] == 'exn':
         e = r[1]
+        if isinstance(e, RecursionError) and d.get('origin') == 'nesting-beyond-interpreter-stack':
+            return ('strict-raised-RecursionError:nesting-beyond-interpreter-stack', {'length': len(s)})
         return ('strict-raised-%s' % type(e).__name__, {'message': str(e)[:200]})
     if r[0] == 'err':
         e = r[1]
